@@ -14,6 +14,10 @@ func init() {
 
 var decoded = hasProv("decoded:")
 
+// decodedX: decoded in this function or handed in / returned as decoded data
+// (server-side responders decode once and may pass the parts to helpers).
+var decodedX = hasProvX("decoded:")
+
 func c06Rules() *RuleSet {
 	sumOf := hasProv("call:hash.Hash.Sum")
 	va, vd := voucherAtoms()
@@ -27,17 +31,17 @@ func c06Own(sumOf func(m *Matcher, v ssa.Value) bool) *RuleSet {
 	return &RuleSet{
 		Atoms: []AtomDef{
 			equal("to0d-hash-eq", "hash recomputed over the decoded to0d equals the hash inside the decoded to1d",
-				sumOf, provAnd(decoded, lacksProv("call:hash.Hash.Sum"))),
+				sumOf, provAnd(decodedX, lacksProv("call:hash.Hash.Sum"))),
 			executed("to0d-hashed", "the decoded to0d was encoded into the hash that is compared",
 				named("fdo/cbor.Encoder.Encode"), func(m *Matcher, call ssa.CallInstruction, args []ssa.Value) bool {
-					return m.Prov(args[0]).HasPrefix("call:crypto.Hash.New") && decoded(m, args[1])
+					return m.Prov(args[0]).HasPrefix("call:crypto.Hash.New") && decodedX(m, args[1])
 				}),
-			nonEmpty("entries-nonempty", "the decoded voucher has at least one entry", decoded),
+			nonEmpty("entries-nonempty", "the decoded voucher has at least one entry", decodedX),
 			errNil("chain-ok", "VerifyEntries on the decoded voucher returned nil", named("fdo.Voucher.VerifyEntries"),
-				func(m *Matcher, _ ssa.CallInstruction, args []ssa.Value) bool { return decoded(m, args[0]) }),
+				func(m *Matcher, _ ssa.CallInstruction, args []ssa.Value) bool { return decodedX(m, args[0]) }),
 			errNil("session-nonce-read", "reading the session's TO0 sign nonce succeeded", named("fdo.TO0SessionState.TO0SignNonce"), nil),
 			equal("nonce-eq", "decoded nonce equals the nonce stored in this session",
-				provAnd(decoded, lacksProv("call:fdo.TO0SessionState.TO0SignNonce")), hasProv("call:fdo.TO0SessionState.TO0SignNonce")),
+				provAnd(decodedX, lacksProv("call:fdo.TO0SessionState.TO0SignNonce")), hasProvX("call:fdo.TO0SessionState.TO0SignNonce")),
 			isNil("ttl-policy", "no AcceptVoucher callback configured", fieldLoad("fdo.TO0Server.AcceptVoucher")),
 			errNil("accept-ok", "AcceptVoucher callback returned no error", named("field:fdo.TO0Server.AcceptVoucher"), nil),
 			notEqualConst("ttl-nonzero", "the callback's ttl is not zero", 0, resultOfCall(named("field:fdo.TO0Server.AcceptVoucher"), 0)),
@@ -57,7 +61,7 @@ func c06VerifyArgs(m *Matcher, _ ssa.CallInstruction, args []ssa.Value) bool {
 		return false
 	}
 	key := m.Prov(args[1])
-	return decoded(m, args[0]) && key.Has("call:fdo.Voucher.OwnerPublicKey") && key.Has("decoded:")
+	return decodedX(m, args[0]) && key.HasX("call:fdo.Voucher.OwnerPublicKey") && key.HasX("decoded:")
 }
 
 func checkC06(c *Ctx, p *Prog, r *Result) {
